@@ -43,10 +43,11 @@ impl FromMetaOptions {
             if let Data::Enum(ref variants) = self.base.data {
                 // The first variant which has `word` set to `true`.
                 // This assumes that validation has prevented multiple variants
-                // from claiming `word`.
+                // from claiming `word`. A skipped variant is never produced, so
+                // it cannot be the word variant either.
                 let variant = variants
                     .iter()
-                    .find(|v| v.word.map(|x| *x).unwrap_or_default())?;
+                    .find(|v| v.word.map(|x| *x).unwrap_or_default() && !v.is_skipped())?;
                 let variant_ident = &variant.ident;
                 let closure: syn::ExprClosure = parse_quote! {
                     || ::darling::export::Ok(Self::#variant_ident)
